@@ -2132,6 +2132,14 @@ impl HasChildren for XmlElement {
             return Err(error::Error::InvalidHierarchy);
         }
 
+        // text that was the value of an attribute may hold what element content may not (`]]>`)
+        if let XmlItem::Text(text) = &*value {
+            let data = text.borrow().text.clone();
+            if !XmlText::check(data.as_str()).unwrap_or(false) {
+                return Err(error::Error::InvalidData(data));
+            }
+        }
+
         match &*value {
             XmlItem::CData(_)
             | XmlItem::CharReference(_)
